@@ -65,6 +65,11 @@ func (rv *respValue) serializeBlobErrorString(sb *strings.Builder, data respBlob
 }
 
 func (rv *respValue) serializeSimpleString(sb *strings.Builder, data string) {
+	// a simple string or error is one line: CR and LF (e.g. client input quoted in an error
+	// message) would break the framing, so they are replaced by spaces as Redis does
+	if strings.ContainsAny(data, "\r\n") {
+		data = strings.NewReplacer("\r", " ", "\n", " ").Replace(data)
+	}
 	sb.WriteString(fmt.Sprintf("%s\r\n", data))
 }
 
